@@ -141,56 +141,7 @@ func sj(s *spec.Spec) string {
 	return string(b)
 }
 
-func isRecursive(s *spec.Spec) bool {
-	rec := false
-	spec.Walk(s, func(sc *spec.Spec) {
-		if sc.Kind != spec.KScope {
-			return
-		}
-		// reference graph between the objects of this scope
-		edges := map[string][]string{}
-		for _, o := range sc.Objects {
-			var collect func(n *spec.Spec)
-			collect = func(n *spec.Spec) {
-				if n == nil || n.Kind == spec.KScope {
-					return
-				}
-				if n.Kind == spec.KRef && n.Namespace == "" {
-					edges[o.ID] = append(edges[o.ID], n.RefID)
-				}
-				collect(n.Items)
-				collect(n.Keys)
-				collect(n.Values)
-				for i := range n.Props {
-					collect(n.Props[i].Type)
-				}
-				for i := range n.Members {
-					collect(n.Members[i].Type)
-				}
-			}
-			for i := range o.Props {
-				collect(o.Props[i].Type)
-			}
-		}
-		for _, o := range sc.Objects {
-			seen := map[string]bool{}
-			stack := append([]string(nil), edges[o.ID]...)
-			for len(stack) > 0 {
-				x := stack[len(stack)-1]
-				stack = stack[:len(stack)-1]
-				if x == o.ID {
-					rec = true
-				}
-				if seen[x] {
-					continue
-				}
-				seen[x] = true
-				stack = append(stack, edges[x]...)
-			}
-		}
-	})
-	return rec
-}
+func isRecursive(s *spec.Spec) bool { return gen.IsRecursive(s) }
 
 func judge(w *sup.Worker, c Case) (string, string) {
 	body, crash := w.Do(c, 20*time.Second)
